@@ -18,6 +18,7 @@ macro_rules! registry {
 
 registry! {
     "C15" => c15,
+    "C16" => c16,
     "C24" => c24,
 }
 
